@@ -10,7 +10,7 @@
 //! (BINV, HIN) over an exact mid-cell lattice (fault kind L).
 
 use crate::envelope as env;
-use crate::lawcore::{pilot_edges, table_cont, ulp_out, Edge, EdgeTable, JudgeInfo, Reject};
+use crate::lawcore::{pilot_edges, table_cont_scaled, ulp_out, Edge, EdgeTable, JudgeInfo, Reject};
 use crate::registry::{build_caught, dirichlet_to_slice, DistSpec, Family, Obj, Out, Scalar};
 use crate::runner::{guarded, hash_key, mark_call, tick, CaseResult, Caught, Ctx, Digest, Engine, Tier, Violation};
 use crate::simrng::{lattice_word, mix, Inject, SimRng};
@@ -124,6 +124,7 @@ fn scalar_law_test(
     n_central: usize,
     seed: u64,
     extra: f64,
+    zone_scale: f64,
 ) -> LawOut {
     let mut out = LawOut::default();
     let mut buf = vec![0f64; BUF];
@@ -157,7 +158,7 @@ fn scalar_law_test(
             cand.push(q(1.0 - p));
         }
     }
-    let table = table_cont(cand, f32_, cdf, sf, delta);
+    let table = table_cont_scaled(cand, f32_, zone_scale, cdf, sf, delta);
     // ---- main + confirmation -----------------------------------------------------
     let mut run = |n: u64, seed: u64, out: &mut LawOut, dg: &mut Digest| -> Result<Vec<u64>, (String, String)> {
         let mut counts = vec![0u64; table.n_cells()];
@@ -229,6 +230,25 @@ fn describe(label: &str, r1: &Reject, n1: u64, r2: &Reject, n2: u64) -> String {
 // continuous (C01)
 // ---------------------------------------------------------------------------
 
+/// scale by which a family multiplies its standardised variate last (see lawcore)
+pub fn zone_scale_of(spec: &DistSpec) -> f64 {
+    let p = &spec.p;
+    let s = match spec.family {
+        Family::Weibull | Family::Pareto => p[0],
+        Family::Gamma => p[1],
+        Family::Exp => 1.0 / p[0],
+        Family::ChiSquared => 2.0,
+        Family::InverseGaussian => p[0],
+        Family::Normal | Family::Cauchy | Family::Gumbel | Family::Frechet | Family::SkewNormal => p[1].abs(),
+        _ => 1.0,
+    };
+    if s.is_finite() {
+        s.abs().max(1.0)
+    } else {
+        1.0
+    }
+}
+
 pub fn cont_test(spec: &DistSpec, n: u64, seed: u64, n_central: usize) -> Result<LawOut, String> {
     let obj = build_caught(spec)?;
     let law = to_cont(spec).ok_or("no reference law")?;
@@ -250,7 +270,7 @@ pub fn cont_test(spec: &DistSpec, n: u64, seed: u64, n_central: usize) -> Result
     let sf = |x: f64| law.sf(x);
     let q = |p: f64| law.quantile(p);
     let delta = |e: f64| 2.0 * ulp_out(e, f32_);
-    Ok(scalar_law_test(&label, &mut draw, &bad, f32_, &cdf, &sf, Some(&q), &delta, n, n_central, seed, 1e-12))
+    Ok(scalar_law_test(&label, &mut draw, &bad, f32_, &cdf, &sf, Some(&q), &delta, n, n_central, seed, 1e-12, zone_scale_of(spec)))
 }
 
 // ---------------------------------------------------------------------------
@@ -591,7 +611,7 @@ pub fn dirichlet_test(spec: &DistSpec, n: u64, seed: u64) -> Result<(LawOut, u64
         let delta = |_e: f64| *res;
         // the vector stream is long: scale N down with the length
         let n_eff = (n / (len as u64).max(4) * 4).max(20_000);
-        let o = scalar_law_test(&sub_label, &mut draw, &bad, false, &cdf, &sf, Some(&q), &delta, n_eff, 128, mix(&[seed, si as u64]), 1e-12);
+        let o = scalar_law_test(&sub_label, &mut draw, &bad, false, &cdf, &sf, Some(&q), &delta, n_eff, 128, mix(&[seed, si as u64]), 1e-12, 1.0);
         tests += 1;
         total.samples += o.samples;
         total.words += o.words;
@@ -694,7 +714,7 @@ pub fn geometry_test(spec: &DistSpec, n: u64, seed: u64) -> Result<(LawOut, u64)
         let delta = |_e: f64| 64.0 * eps;
         // fixed equiprobable grid (1024 cells) instead of pilot edges for the grid tests
         let q = |p: f64| p;
-        let o = scalar_law_test(&sub_label, &mut draw, &bad, false, &cdf, &sf, Some(&q), &delta, n, if name.contains("grid") { 1024 } else { 256 }, mix(&[seed, si as u64]), 1e-12);
+        let o = scalar_law_test(&sub_label, &mut draw, &bad, false, &cdf, &sf, Some(&q), &delta, n, if name.contains("grid") { 1024 } else { 256 }, mix(&[seed, si as u64]), 1e-12, 1.0);
         tests += 1;
         total.samples += o.samples;
         total.words += o.words;
